@@ -95,6 +95,11 @@ static Step gen_owner(Rng &r, const std::string &bias, int force_kind = -1)
 	s.set("ecmin", r.chance(1, 4) ? 1 : 0);
 	s.set("extra", r.chance(1, 2) ? 0 : (int64_t)r.below(64));
 	s.set("loadprov", r.chance(3, 4) ? 0 : 1);
+	// oct k written with '=' padding (1) or with characters after a '=' (2, only where the floor is the subject)
+	if (kind == 0 && r.chance(1, 4))
+		s.set("octpad", bias == "C09" && r.chance(1, 2) ? 2 : 1);
+	if (r.chance(1, 5))
+		s.set("decoy", r.range(1, 1000));
 	return s;
 }
 
@@ -104,6 +109,11 @@ static void world_gen(Rng &r, Plan &p, Tier tier, uint64_t index)
 	if (bias == "C14")
 		bias = r.pick(std::vector<std::string>{"C01", "C02", "C03", "C05", "C06", "C09"});
 	p.cfg["bias"] = Val(bias);
+	// swarm knobs: one thread per step (GnuTLS signatures independent of history) or one thread per
+	// run (thread-local library state - error queues, per-thread caches - carries over between steps);
+	// allocator hands freed blocks straight back (address reuse) or leaves them to ASan's quarantine
+	p.cfg["one_thread"] = Val((int64_t)(r.chance(1, 2) ? 1 : 0));
+	p.cfg["reuse"] = Val((int64_t)(r.chance(1, 3) ? 1 : 0));
 	uint64_t uid = 1;
 	auto push = [&](Step s) {
 		s.uid = uid++;
@@ -113,6 +123,8 @@ static void world_gen(Rng &r, Plan &p, Tier tier, uint64_t index)
 	int first_kind = -1;
 	for (int i = 0; i < n_owner; i++) {
 		Step o = gen_owner(r, bias, i == 1 ? first_kind : -1);
+		if (tier == THOROUGH && o.I("kind") == 1 && r.chance(1, 12))
+			o.set("fresh", r.range(1, 100000));
 		if (bias == "C09" && i == 0) {
 			// stratified: run i uses oct length i mod 161 for the first owner (or a weak RSA/EC cell)
 			int cell = (int)(index % 200);
@@ -160,6 +172,8 @@ static void world_gen(Rng &r, Plan &p, Tier tier, uint64_t index)
 		v.set("explicit", ex);
 		v.set("exsel", (int64_t)r.below(64));
 		v.set("prov", r.chance(1, 2) ? 0 : 1);
+		if (bias == "C06" && r.chance(1, 2))
+			v.set("expect", r.range(1, 7)); // bit0 iss, bit1 sub, bit2 aud expectations
 		push(v);
 	}
 	for (int i = 0; i < n_iss; i++) {
@@ -178,6 +192,9 @@ static void world_gen(Rng &r, Plan &p, Tier tier, uint64_t index)
 		s.set("claims_seed", (int64_t)r.below(1 << 30));
 		s.set("iat", r.chance(3, 4) ? 1 : 0);
 		s.set("typ", r.chance(1, 5) ? 1 : 0);
+		// exp offset: none, short, 20 years, 2^40 seconds (time_t arithmetic must not be narrowed)
+		if (r.chance(1, 3))
+			s.set("exp_off", (int64_t)r.pick(std::vector<int64_t>{60, 3600, 631152000LL, 1LL << 40, (1LL << 31) + 5}));
 		push(s);
 	}
 	// fault probability per delivery is drawn per run so that fault-free and fault-heavy runs both occur
@@ -229,7 +246,23 @@ static void world_gen(Rng &r, Plan &p, Tier tier, uint64_t index)
 			s.set("exsel", (int64_t)r.below(64));
 			s.set("clear", r.chance(1, 6) ? 1 : 0);
 			push(s);
-		} else if ((bias == "C06" && roll < 75) || roll < 32) {
+		} else if (roll < 33 && bias != "C05" && bias != "C08") {
+			// the owner retires its key: key sets freed, a new key of the same kind loaded, the verifiers
+			// that held the old key re-pointed to the new one; old tokens stay in the pool and come back
+			Step s("ROTATE");
+			int64_t ro = (int64_t)r.below((uint64_t)n_owner);
+			s.set("owner", ro);
+			push(s);
+			// late replay: a token signed with the retired key goes to a verifier that now holds the new one
+			int nrep = (int)r.range(0, 2);
+			for (int k = 0; k < nrep; k++) {
+				Step d("DELIVER");
+				d.set("token", (int64_t)r.below(64));
+				d.set("to", (int64_t)r.below((uint64_t)n_ver));
+				d.set("retired_of", ro + 1);
+				push(d);
+			}
+		} else if ((bias == "C06" && roll < 75) || roll < 38) {
 			Step s("GARBAGE");
 			s.set("to", (int64_t)r.below((uint64_t)n_ver));
 			s.set("kind", (int64_t)r.below((uint64_t)N_GARBAGE_KINDS));
@@ -274,6 +307,7 @@ static void world_gen(Rng &r, Plan &p, Tier tier, uint64_t index)
 
 // ---------------------------------------------------------------- world state
 struct Owner {
+	Step spec; // the OWNER step it was made from (rotation makes a new key of the same kind)
 	KeyRef truth;
 	LoadedKey priv, pub;
 	bool ok = false;
@@ -297,6 +331,8 @@ struct Party {
 	int eff_explicit = JWT_ALG_NONE;
 	bool reject_all = false; // callback returns error
 	bool pin_dontcare = false;
+	int expect = 0;       // checker: bit0 iss, bit1 sub, bit2 aud expectations (C06 bias)
+	int64_t exp_off = 0;  // issuer: exp offset
 	// issuer content
 	json_t *hdr_in = nullptr, *claims_in = nullptr;
 	bool iat = true;
@@ -305,6 +341,7 @@ struct Party {
 struct Msg {
 	std::string token;
 	int owner = -1;
+	int orig_owner = -1; // never changes; owner becomes -2 when the signing key is retired
 	int alg = JWT_ALG_NONE;
 	bool from_builder = false;
 	int issuer = -1;
@@ -456,19 +493,25 @@ static void check_c08(World &w, const Owner &o, const LoadedKey &lk, const JwkOp
 	(void)s;
 }
 
-static void do_owner(World &w, const Step &s)
+static Owner make_owner(World &w, const Step &s, uint64_t salt)
 {
 	Ctx &ctx = w.ctx;
 	Owner o;
+	o.spec = s;
 	o.kind = (int)s.I("kind") % 4;
 	int size = (int)s.I("size");
-	Rng kr(mix64(w.plan.rng, s.uid * 7919 + 1));
+	Rng kr(mix64(w.plan.rng, salt * 7919 + 1));
 	switch (o.kind) {
 	case 0:
 		o.truth = key_gen_oct(kr, (size_t)(size < 0 ? 0 : size > 4096 ? 4096 : size));
 		break;
 	case 1:
-		o.truth = key_rsa_pool(RSA_POOL_BITS[((size % N_RSA_POOL_BITS) + N_RSA_POOL_BITS) % N_RSA_POOL_BITS], (int)s.I("idx"));
+		if (s.I("fresh")) {
+			// thorough tier: a freshly generated modulus of an unusual size (2048..4096 in steps of 8)
+			o.truth = key_rsa_fresh(2048 + 8 * (int)((uint64_t)s.I("fresh") % 257));
+			ctx.count("probe:rsa_key_freshly_generated");
+		} else
+			o.truth = key_rsa_pool(RSA_POOL_BITS[((size % N_RSA_POOL_BITS) + N_RSA_POOL_BITS) % N_RSA_POOL_BITS], (int)s.I("idx"));
 		break;
 	case 2:
 		o.truth = key_gen_ec(EC_CRV[((size % 4) + 4) % 4]);
@@ -523,6 +566,9 @@ static void do_owner(World &w, const Step &s)
 		opts.key_ops.push_back("customOp");
 	opts.pad_zeros = o.kind == 1 || o.kind == 2 ? (int)s.I("pad") : 0;
 	opts.ec_minimal = s.I("ecmin") != 0;
+	opts.oct_pad = o.kind == 0 ? (int)s.I("octpad") : 0;
+	if (opts.oct_pad)
+		ctx.count("probe:oct_k_written_with_padding");
 	JwkOpts plain = opts;
 	int64_t ex = s.I("extra");
 	if (ex & 1)
@@ -556,6 +602,23 @@ static void do_owner(World &w, const Step &s)
 		// "d" decides private/public for EC and OKP; no foreign "d" is injected anywhere
 	}
 	set_provider((int)s.I("loadprov") ? PROV_GNUTLS : PROV_OPENSSL);
+	if (s.I("decoy")) {
+		// a malformed key from someone else is read first on the same thread (library-level failure
+		// states such as an error queue must not affect the import that follows)
+		static const char *decoys[] = {
+			"{\"kty\":\"EC\",\"crv\":\"P-256\",\"x\":\"AAAAAAAAAAAAAAAAAAAAAAAAAAAAAAAAAAAAAAAAAAE\",\"y\":\"AAAAAAAAAAAAAAAAAAAAAAAAAAAAAAAAAAAAAAAAAAE\"}",
+			"{\"kty\":\"RSA\",\"n\":\"AQAB\",\"e\":\"AQAB\",\"d\":\"AQAB\",\"p\":\"AQAB\",\"q\":\"AQAB\",\"dp\":\"AQAB\",\"dq\":\"AQAB\",\"qi\":\"AQAB\"}",
+			"{\"kty\":\"OKP\",\"crv\":\"Ed25519\",\"x\":\"AAAA\"}",
+			"{\"kty\":\"EC\",\"crv\":\"P-999\",\"x\":\"AAAA\",\"y\":\"AAAA\"}"};
+		jwk_set_t *d;
+		{
+			Armed a;
+			d = jwks_create(decoys[(uint64_t)s.I("decoy") % ARRAY_LEN(decoys)]);
+			if (d)
+				jwks_free(d);
+		}
+		ctx.count("fault:malformed_key_read_before_import");
+	}
 	opts.priv = true;
 	plain.priv = true;
 	std::string jpriv = jwk_export(*o.truth, opts), jpriv_plain = jwk_export(*o.truth, plain);
@@ -582,7 +645,12 @@ static void do_owner(World &w, const Step &s)
 		ctx.sig(strf("C08|%s|attr%d|kid%lld|use%lld|pad%d|min%d|ex%lld", o.truth->label.c_str(), attr, (long long)s.I("kid"),
 			     (long long)s.I("use"), opts.pad_zeros, opts.ec_minimal, (long long)ex));
 	}
-	w.owners.push_back(std::move(o));
+	return o;
+}
+
+static void do_owner(World &w, const Step &s)
+{
+	w.owners.push_back(make_owner(w, s, s.uid));
 }
 
 // ---------------------------------------------------------------- parties
@@ -769,6 +837,16 @@ static void do_party(World &w, const Step &s, bool checker)
 	p.pin_dontcare = !checker && mk && alg_from_owner >= 0 && alg_from_owner != mowner;
 	if (p.route == 6)
 		ctx.logf("%s route=6 (no key)", checker ? "VERIFIER" : "ISSUER");
+	if (checker && s.I("expect")) {
+		p.expect = (int)s.I("expect") & 7;
+		Armed a;
+		if (p.expect & 1)
+			jwt_checker_claim_set(p.chk, JWT_CLAIM_ISS, "issuer-x");
+		if (p.expect & 2)
+			jwt_checker_claim_set(p.chk, JWT_CLAIM_SUB, "someone");
+		if (p.expect & 4)
+			jwt_checker_claim_set(p.chk, JWT_CLAIM_AUD, "audience-1");
+	}
 	if (!checker) {
 		// issuer content: header and claim trees set through the whole-object JSON setter
 		Rng hr(mix64(0x4844, (uint64_t)s.I("hdr_seed"))), cr(mix64(0x434c, (uint64_t)s.I("claims_seed")));
@@ -790,6 +868,9 @@ static void do_party(World &w, const Step &s, bool checker)
 		jv_set_json(&jv, NULL, ct.c_str());
 		int r2 = jwt_builder_claim_set(p.bld, &jv);
 		jwt_builder_enable_iat(p.bld, p.iat);
+		p.exp_off = s.I("exp_off");
+		if (p.exp_off > 0)
+			jwt_builder_time_offset(p.bld, JWT_CLAIM_EXP, (time_t)p.exp_off);
 		ctx.logf("ISSUER content hdr=%s claims=%s rc=%d/%d", show(ht, 80).c_str(), show(ct, 80).c_str(), r1, r2);
 	}
 	(checker ? w.verifiers : w.issuers).push_back(std::move(p));
@@ -838,6 +919,69 @@ static void do_reconfig(World &w, const Step &s)
 		v.route = item ? 0 : 6;
 	} else
 		jwt_checker_error_clear(v.chk); // previous configuration stays in force
+}
+
+// ROTATE: an owner retires its key. Only owners whose key is held by setkey-configured verifiers
+// (no callbacks, no issuers) rotate, so that nothing keeps a pointer into the freed key sets.
+static void do_rotate(World &w, const Step &s)
+{
+	Ctx &ctx = w.ctx;
+	if (w.owners.empty())
+		return;
+	size_t oi = (uint64_t)s.I("owner") % w.owners.size();
+	Owner &old = w.owners[oi];
+	for (auto &p : w.issuers)
+		if (p.owner == (int)oi || (p.cb && p.cb->key && (p.cb->key == old.priv.item || p.cb->key == old.pub.item))) {
+			ctx.logf("ROTATE skipped (an issuer holds the key)");
+			return;
+		}
+	for (auto &p : w.verifiers)
+		if ((p.owner == (int)oi && ROUTES[p.route].cb != 0) || (p.cb && p.cb->key && (p.cb->key == old.priv.item || p.cb->key == old.pub.item))) {
+			ctx.logf("ROTATE skipped (a verifier's callback holds the key)");
+			return;
+		}
+	std::vector<Party *> holders;
+	for (auto &p : w.verifiers)
+		if (p.owner == (int)oi && p.has_key)
+			holders.push_back(&p);
+	// the verifiers let go of the old key first, then the key sets are freed
+	for (Party *p : holders) {
+		set_provider(p->prov);
+		Armed a;
+		jwt_checker_setkey(p->chk, JWT_ALG_NONE, NULL);
+	}
+	std::string old_label = old.truth->label;
+	// released in reverse order of allocation, as a stack-like teardown would
+	lib_free_key(old.pub);
+	lib_free_key(old.priv);
+	Owner fresh = make_owner(w, old.spec, s.uid + 100000);
+	w.owners[oi] = std::move(fresh);
+	Owner &nw = w.owners[oi];
+	ctx.count("fault:key_rotation_with_old_tokens_in_flight");
+	ctx.logf("ROTATE owner %zu: %s retired, new key loaded (ok=%d), %zu verifier(s) re-pointed", oi, old_label.c_str(), nw.ok, holders.size());
+	for (Party *p : holders) {
+		set_provider(p->prov);
+		const jwk_item_t *item = nw.ok ? (p->form_priv ? nw.priv.item : nw.pub.item) : NULL;
+		int r = 1;
+		if (item) {
+			Armed a;
+			r = jwt_checker_setkey(p->chk, (jwt_alg_t)p->eff_explicit, item);
+		}
+		if (r == 0) {
+			p->key_alg = nw.key_alg;
+		} else {
+			jwt_checker_error_clear(p->chk);
+			p->has_key = false;
+			p->owner = -1;
+			p->eff_explicit = JWT_ALG_NONE;
+			p->key_alg = JWT_ALG_NONE;
+			p->route = 6;
+		}
+	}
+	// tokens of the retired key stay in the pool: they no longer belong to this owner's current key
+	for (auto &m : w.pool)
+		if (m.owner == (int)oi)
+			m.owner = -2;
 }
 
 static const KeyTruth *party_truth(World &w, const Party &p)
@@ -920,6 +1064,7 @@ static void do_issue(World &w, const Step &s)
 		Msg m;
 		m.token = go.token;
 		m.owner = p.has_key ? p.owner : -1;
+		m.orig_owner = m.owner;
 		m.alg = ha ? ha->id : JWT_ALG_NONE;
 		m.from_builder = true;
 		m.issuer = ii;
@@ -991,6 +1136,15 @@ static void do_refissue(World &w, const Step &s)
 	json_t *claims = gen_json_object(cr, 2, 4);
 	for (const char *k : {"exp", "nbf"})
 		json_object_del(claims, k);
+	if (w.bias == "C06") {
+		// registered claims of every JSON type: the checker may hold expectations for them
+		static const char *vals[] = {"\"issuer-x\"", "\"someone\"", "\"audience-1\"", "5", "null", "true", "[\"audience-1\",\"b\"]", "{\"a\":1}", "1.5", "\"\""};
+		for (const char *k : {"iss", "sub", "aud"})
+			if (cr.chance(2, 3)) {
+				json_t *v = json_loads(vals[cr.below(ARRAY_LEN(vals))], JSON_DECODE_ANY, NULL);
+				json_object_set_new(claims, k, v);
+			}
+	}
 	std::string pay = json_text(claims);
 	json_decref(claims);
 	Msg m;
@@ -1015,6 +1169,7 @@ static void do_refissue(World &w, const Step &s)
 		}
 		m.alg = a;
 	}
+	m.orig_owner = m.owner;
 	m.issued_at = g_clock.now();
 	ctx.logf("REFISSUE owner=%zu alg=%s -> %s", oi, alg_name(m.alg), show(m.token, 60).c_str());
 	w.pool.push_back(m);
@@ -1051,6 +1206,12 @@ static void judge_delivery(World &w, Party &v, int vi, const std::string &tok, c
 		     tp.alg_is_string ? show(tp.alg, 12).c_str() : (tp.alg_present ? "nonstring" : "absent"), acc, msg_class(vo.msg).c_str()));
 	if (!faults.empty())
 		ctx.nontrivial = true;
+	// C02 core matrix cell: explicit alg x key kind/attr x header alg class x route
+	if (w.bias == "C02") {
+		int hcls = !tp.has2 || !tp.hdr_ok ? 0 : !tp.alg_present ? 1 : !tp.alg_is_string ? 2 : !ha ? 3 : 4 + ha->id;
+		ctx.sig(strf("C02cell|e%d|k%s.%s|h%d|r%d", v.eff_explicit, k ? (k->kty == K_OCT ? "oct" : k->kty == K_RSA ? "rsa" : k->kty == K_EC ? "ec" : "okp") : "none", alg_name(v.key_alg), hcls, v.route));
+		ctx.count("probe:c02_matrix_cells_visited");
+	}
 	std::string hdralg = tp.alg_is_string ? show(tp.alg, 16) : (tp.alg_present ? "<non-string>" : "<absent>");
 	std::string kty = k ? (k->kty == K_OCT ? "oct" : k->kty == K_RSA ? "RSA" : k->kty == K_EC ? "EC" : "OKP") : "nokey";
 
@@ -1099,12 +1260,12 @@ static void judge_delivery(World &w, Party &v, int vi, const std::string &tok, c
 		}
 	} else {
 		// C05 completeness: pristine token of owner O with alg A to a verifier holding O's key pinned to A
-		if (pristine && src && !src->unsigned_tok && v.has_key && v.owner == src->owner && adm && pa && pa->id == src->alg && k && key_family_ok(*k, *pa) &&
+		if (pristine && src && !src->unsigned_tok && !v.expect && v.has_key && v.owner == src->owner && adm && pa && pa->id == src->alg && k && key_family_ok(*k, *pa) &&
 		    key_strength_ok(*k, *pa) && provider_supports(v.prov, *pa, *k) && !v.reject_all)
 			ctx.violation("C05", "valid-token-rejected", strf("%s:%s:%s->%s", pa->name, k->label.c_str(), src->from_builder ? prov_name(src->prov) : "reference", prov_name(v.prov)),
 				      strf("pristine %s token from %s for key %s rejected by %s verifier: '%s' token=%s", pa->name, src->from_builder ? prov_name(src->prov) : "the reference signer",
 					   k->label.c_str(), prov_name(v.prov), vo.msg.c_str(), show(tok, 300).c_str()));
-		if (pristine && src && src->unsigned_tok && !v.has_key && v.eff_explicit == JWT_ALG_NONE && !v.reject_all)
+		if (pristine && src && src->unsigned_tok && !v.expect && !v.has_key && v.eff_explicit == JWT_ALG_NONE && !v.reject_all)
 			ctx.violation("C03", "checker-nokey-rejects-none", "pristine-none",
 				      strf("checker without key rejected a pristine alg-none token: '%s' %s", vo.msg.c_str(), show(tok, 200).c_str()));
 	}
@@ -1117,6 +1278,8 @@ static void judge_delivery(World &w, Party &v, int vi, const std::string &tok, c
 			json_object_set_new(eh, "typ", json_string("JWT"));
 		if (is.iat)
 			json_object_set_new(ec, "iat", json_integer(src->issued_at));
+		if (is.exp_off > 0)
+			json_object_set_new(ec, "exp", json_integer(src->issued_at + is.exp_off));
 		json_t *gh = json_loads(v.cb->hdr_json.c_str(), 0, NULL), *gc = json_loads(v.cb->claims_json.c_str(), 0, NULL);
 		ctx.count("probe:content_roundtrip_compared");
 		ctx.count("probe:typed_getter_reads_in_callback", (uint64_t)v.cb->typed_reads);
@@ -1169,6 +1332,25 @@ static void do_deliver(World &w, const Step &s, bool garbage)
 		src = &w.pool[(uint64_t)s.I("token") % w.pool.size()];
 	if (!garbage && !src)
 		return;
+	if (!garbage && s.I("retired_of") > 0) {
+		int ro = (int)((uint64_t)(s.I("retired_of") - 1) % (w.owners.empty() ? 1 : w.owners.size()));
+		for (size_t j = 0; j < w.pool.size(); j++) {
+			const Msg &c = w.pool[((uint64_t)s.I("token") + j) % w.pool.size()];
+			if (c.orig_owner == ro && c.owner == -2) {
+				src = &c;
+				break;
+			}
+		}
+		for (size_t j = 0; j < w.verifiers.size(); j++) {
+			size_t c = ((size_t)vi + j) % w.verifiers.size();
+			if (w.verifiers[c].has_key && w.verifiers[c].owner == ro) {
+				vi = (int)c;
+				break;
+			}
+		}
+		if (src->owner == -2)
+			ctx.count("fault:late_replay_of_token_signed_with_retired_key");
+	}
 	if (!garbage && s.I("match") && src->owner >= 0) {
 		// prefer a verifier that holds the issuing owner's key
 		for (size_t j = 0; j < w.verifiers.size(); j++) {
@@ -1273,33 +1455,53 @@ static void world_exec(Ctx &ctx)
 {
 	World w(ctx);
 	w.bias = w.plan.CS("bias", w.plan.property);
-	for (size_t si = 0; si < w.plan.steps.size(); si++) {
-		const Step &s = w.plan.steps[si];
-		ctx.cur_step = (int)si;
-		// Every step runs on a fresh thread with the entropy stream re-pointed, so that signatures
-		// (OpenSSL RAND method, GnuTLS per-thread DRBG) are a function of (plan.rng, step.uid) only.
-		run_isolated(mix64(w.plan.rng, s.uid), [&]() {
-			if (s.op == "OWNER")
-				do_owner(w, s);
-			else if (s.op == "VERIFIER")
-				do_party(w, s, true);
-			else if (s.op == "ISSUER")
-				do_party(w, s, false);
-			else if (s.op == "ISSUE")
-				do_issue(w, s);
-			else if (s.op == "REFISSUE")
-				do_refissue(w, s);
-			else if (s.op == "DELIVER")
-				do_deliver(w, s, false);
-			else if (s.op == "GARBAGE")
-				do_deliver(w, s, true);
-			else if (s.op == "RECONFIG")
-				do_reconfig(w, s);
-			else if (s.op == "ADVANCE") {
-				g_clock.advance(s.I("dt"));
-				ctx.logf("ADVANCE %lld", (long long)s.I("dt"));
+	auto one_step = [&](const Step &s) {
+		if (s.op == "OWNER")
+			do_owner(w, s);
+		else if (s.op == "VERIFIER")
+			do_party(w, s, true);
+		else if (s.op == "ISSUER")
+			do_party(w, s, false);
+		else if (s.op == "ISSUE")
+			do_issue(w, s);
+		else if (s.op == "REFISSUE")
+			do_refissue(w, s);
+		else if (s.op == "DELIVER")
+			do_deliver(w, s, false);
+		else if (s.op == "GARBAGE")
+			do_deliver(w, s, true);
+		else if (s.op == "RECONFIG")
+			do_reconfig(w, s);
+		else if (s.op == "ROTATE")
+			do_rotate(w, s);
+		else if (s.op == "ADVANCE") {
+			g_clock.advance(s.I("dt"));
+			ctx.logf("ADVANCE %lld", (long long)s.I("dt"));
+		}
+	};
+	g_alloc.reuse = w.plan.C("reuse") != 0;
+	if (g_alloc.reuse)
+		ctx.count("fault:allocator_address_reuse_runs");
+	if (w.plan.C("one_thread")) {
+		// One fresh thread for the whole run: thread-local state of the libraries (OpenSSL error queue,
+		// GnuTLS per-thread DRBG, any per-thread cache) carries over from step to step, as in a real
+		// single-threaded service. Replay is still a function of the plan alone.
+		ctx.count("probe:runs_on_one_thread");
+		run_isolated(mix64(w.plan.rng, 0x0e7), [&]() {
+			for (size_t si = 0; si < w.plan.steps.size(); si++) {
+				ctx.cur_step = (int)si;
+				sim_entropy_point(mix64(w.plan.rng, w.plan.steps[si].uid));
+				one_step(w.plan.steps[si]);
 			}
 		});
+	} else {
+		for (size_t si = 0; si < w.plan.steps.size(); si++) {
+			const Step &s = w.plan.steps[si];
+			ctx.cur_step = (int)si;
+			// Every step runs on a fresh thread with the entropy stream re-pointed, so that signatures
+			// (OpenSSL RAND method, GnuTLS per-thread DRBG) are a function of (plan.rng, step.uid) only.
+			run_isolated(mix64(w.plan.rng, s.uid), [&]() { one_step(s); });
+		}
 	}
 	if (w.pool.size() > 1 || w.verifiers.size() > 1)
 		ctx.nontrivial = true;
